@@ -244,3 +244,66 @@ Theorem clamp_and_dst_examples :
   dt_add (Aware paris13 false) (wall_of 2013 9 27 2 30 0 0) false 0 1 0 0 0 0 0 0 = Ok (wall_of 2013 10 27 2 30 0 0, true).
 Proof. pose proof clamp_examples. pose proof dst_examples. tauto. Qed.
 Print Assumptions clamp_and_dst_examples.
+
+(* ---- the MODEL side itself: the operator / add / subtract entry points of Model/CalendarArith.v EQUAL the machine translation of pendulum's
+   own code (Gen/TzGlue.v: src/pendulum/datetime.py and date.py translated from /repo on every run).  A right operand is the record of its
+   class, native microseconds, accessor values and _signature (gop_of_iv / gop_of_dur / gop_of_td).  add_agrees / date_agrees = "add() agrees
+   with the model on this value" (model_is_code_datetime_add in C03; model_is_code_date_add below, under their side conditions).
+   NOT covered: the plain-timedelta route of DateTime (+/- a datetime.timedelta passes FLOAT seconds to add(): dt_add_fsec stays hand-written
+   + pinned; g_add_timedelta marks it E_NotImplemented) and the datetime/date operand of `-` (Interval construction). ---- *)
+From PV Require Import Model.TzGlueObj Gen.TzGlue Model.WallHistory Proofs.TzGlueFacts.
+
+Theorem model_is_code_add_interval_operand : forall tzo W f y mo wk rd h mi rs us N total, add_agrees tzo W f ->
+  g_add_timedelta (dt_of W f tzo) (gop_of_iv y mo wk rd h mi rs us N) = res_of tzo (dt_add_timedelta (tzk_of tzo) W f (OpIv y mo wk rd h mi rs us total)).
+Proof. exact glue_add_interval_operand. Qed.
+Print Assumptions model_is_code_add_interval_operand.
+
+Theorem model_is_code_add_duration_operand : forall tzo W f d, add_agrees tzo W f ->
+  g_add_timedelta (dt_of W f tzo) (gop_of_dur d) = res_of tzo (dt_add_timedelta (tzk_of tzo) W f (OpDur d)).
+Proof. exact glue_add_duration_operand. Qed.
+Print Assumptions model_is_code_add_duration_operand.
+
+Theorem model_is_code_sub_duration_operand : forall tzo W f d, add_agrees tzo W f ->
+  g_subtract_timedelta (dt_of W f tzo) (gop_of_dur d) = res_of tzo (dt_sub_timedelta (tzk_of tzo) W f (OpDur d)).
+Proof. exact glue_sub_duration_operand. Qed.
+Print Assumptions model_is_code_sub_duration_operand.
+
+Theorem model_is_code_sub_interval_operand : forall tzo W f y mo wk rd h mi rs us N total, add_agrees tzo W f ->
+  g_subtract_timedelta (dt_of W f tzo) (gop_of_iv y mo wk rd h mi rs us N) = res_of tzo (dt_sub_timedelta (tzk_of tzo) W f (OpIv y mo wk rd h mi rs us total)).
+Proof. exact glue_sub_interval_operand. Qed.
+Print Assumptions model_is_code_sub_interval_operand.
+
+(* Date.add / subtract: midnight W = a date of years 1..9999; date_side = add_duration's result is again such a date *)
+Theorem model_is_code_date_add : forall W y mo wk d, midnight W -> date_side W y mo wk d ->
+  glue_Date_add (mkgdate W) y mo wk d = gres_date (date_add W y mo wk d).
+Proof. exact glue_date_add. Qed.
+Print Assumptions model_is_code_date_add.
+
+Theorem model_is_code_date_subtract : forall W y mo wk d, midnight W -> date_side W (- y) (- mo) (- wk) (- d) ->
+  glue_Date_subtract (mkgdate W) y mo wk d = gres_date (date_subtract W y mo wk d).
+Proof. exact glue_date_subtract. Qed.
+Print Assumptions model_is_code_date_subtract.
+
+(* Date.__add__ / _add_timedelta with the three operand classes (a plain timedelta contributes .days: integers only, fully covered) *)
+Theorem model_is_code_date_add_timedelta : forall W N, date_agrees W ->
+  glue_Date___add__ (mkgdate W) (gop_of_td N) = gres_date (date_add_timedelta W (OpTd N)).
+Proof. exact glue_date_add_timedelta_td. Qed.
+Print Assumptions model_is_code_date_add_timedelta.
+
+Theorem model_is_code_date_add_duration : forall W d, date_agrees W ->
+  glue_Date___add__ (mkgdate W) (gop_of_dur d) = gres_date (date_add_timedelta W (OpDur d)).
+Proof. exact glue_date_add_timedelta_dur. Qed.
+Print Assumptions model_is_code_date_add_duration.
+
+Theorem model_is_code_date_add_interval : forall W y mo wk rd h mi rs us N total, date_agrees W ->
+  glue_Date___add__ (mkgdate W) (gop_of_iv y mo wk rd h mi rs us N) = gres_date (date_add_timedelta W (OpIv y mo wk rd h mi rs us total)).
+Proof. exact glue_date_add_timedelta_iv. Qed.
+Print Assumptions model_is_code_date_add_interval.
+
+(* Date.__sub__ / _subtract_timedelta with a timedelta operand of any class *)
+Theorem model_is_code_date_sub_timedelta : forall W op, date_agrees W ->
+  glue_Date___sub___timedelta (mkgdate W)
+    (match op with OpTd N => gop_of_td N | OpDur d => gop_of_dur d | OpIv y mo wk rd h mi rs us _ => gop_of_iv y mo wk rd h mi rs us 0 end)
+  = gres_date (date_sub_timedelta W op).
+Proof. exact glue_date_sub_timedelta. Qed.
+Print Assumptions model_is_code_date_sub_timedelta.
